@@ -1021,7 +1021,9 @@ def run(rep: vlib.Reporter, tier: str, seed: int) -> None:
                     "returns/raises (exhaustive in thorough, n<=2 exhaustive + sample in quick); wrapped: sets of <= 4 extenders on a real "
                     "PyArrowTable through the three run_* methods, n<=2 full product with all 8 hook subsets x 3 kinds x returns/raises "
                     "in thorough, n=3 all (priority, behaviour, declares-the-hook) combinations, n=4 sample; e2e: run_all on a chain of "
-                    "2-3 generated groups, SYNC and THREADING. non-trivial = at least two extenders wrap the same call (a real chain)")
+                    "2-3 generated groups, SYNC and THREADING; e2e_modes: 40 (quick) / 600 (thorough) PRNG configurations, each in SYNC, "
+                    "THREADING and MULTIPROCESSING, two thirds on the chain, one third on a two-object plan. non-trivial = at least two "
+                    "extenders wrap the same call (a real chain)")
     for c in (ca[len(ca) // 2], cb[len(cb) // 2], ce[1], ce[-1]):
         rep.sample({k: v for k, v in c.items() if k != "value"})
     if not pr.ok and not found:
